@@ -179,7 +179,7 @@ def linear(ctx, func, expr):
             if c is None:
                 raise NotLinear(norm(e))
             return {c: 1}
-        if isinstance(e, ast.Call):
+        if isinstance(e, (ast.Call, ast.Subscript, ast.Await)):
             return {norm(e): 1}
         raise NotLinear(norm(e))
     out = go(expr)
